@@ -8,46 +8,71 @@ from lib import common
 from lib.common import COQ, REPO, sh, write_if_changed
 
 PID = "C15"
-RULE = ("gen: ast translator over every module -> writes to state that outlives a parse, non-determinism sources, "
-        "renderer attribute tables (coq/Gen/GlobalWrites.v); correspondence: for every classified cell a targeted probe "
-        "history (documents that would expose the cell if it leaked), run in a process forked from an import-only "
-        "forkserver, outcome 'later output differs from the fresh output' compared with class = Leak of the Coq table; "
-        "merge_file_level called on a shared config object which is compared before/after; search: random histories "
-        "(sequences of (document, configuration) parses in ONE process) vs every (document, configuration) parsed first in "
-        "a fresh process, relation = pformat() + warning stream (scratch paths and object addresses masked); Sphinx: "
-        "generated projects built with 1 vs 4 read workers and shuffled file creation order, relation = written HTML "
-        "files (only the masked items listed in the notes) + sorted warnings; non-trivial = a history position > 0 whose "
-        "document emits warnings or uses a directive/role/include, or a Sphinx project with > 5 documents")
+RULE = ("gen (every run): ast translator over every module -> coq/Gen/GlobalWrites.v: writes to state that outlives a parse, "
+        "non-determinism sources, renderer attributes read before written per method, __init__ / setup_render assignments and "
+        "merge_file_level's bindings / writes / returns as code, uses of the Sphinx environment in read-phase code; correspondence: the "
+        "classification table is evaluated by coqc; per classified cell a probe history (all ordered pairs of the probe's documents) in a "
+        "process forked from an import-only forkserver - 'later output differs from the fresh output' must equal class = Leak; "
+        "merge_file_level on a shared config compared before/after, and no container of a field that some code mutates in place may be "
+        "shared with the global; random histories run through the EXTRACTED model and through the implementation with the real "
+        "process-level cells dumped before the first and after every parse - wherever the model has equal content the real object must be "
+        "equal; search: every (document, configuration) first in a fresh process vs random histories, one-field configuration deltas "
+        "(same document and path, A,B,B,A for every pair of values of every MdParserConfig field), one parser object rendering several "
+        "documents, one docutils settings object shared by several publish calls (every boolean field flipped by front matter); "
+        "relation = pformat() + warning stream at the default report level, scratch paths and object addresses masked; Sphinx: "
+        "generated projects (10-20 documents with read-time cross-document links in every spelling to earlier and later documents, "
+        "includes, math, footnotes, figure-md, roles, glossary) built serial / -j4 / -j4 shuffled / serial again (forking verified), two "
+        "fixed projects (role registry, config aliasing), incremental rebuilds after three kinds of edit vs a fresh build; relation = "
+        "written HTML (only the masks listed in the notes) + sorted warnings + env.myst_config before/after; non-trivial = a history "
+        "position > 0 whose document emits warnings or uses a directive / role / include, or a Sphinx project with > 5 documents")
 TRUSTED = [
-    "coq/Hist/Hist.v table 'classification' (one class + justification per regenerated write)",
-    "the syntactic notion of 'shared state' of gen/c15_globalwrites.py: module-level names, names declared global, locals "
-    "holding class objects (*_class, *_cls, cls, klass), access paths through config/env/app/settings/registry objects, "
-    "setattr() on non-fresh objects, mutating method calls on those, functools caches, registry calls",
-    "state kept by docutils, Sphinx, pygments, markdown-it and Jinja themselves (role/directive registries, language "
-    "caches, lexer caches) is not in the table: it is exercised by the history search only",
-    "fork/pickle/merge behaviour of Sphinx read workers is runtime behaviour: exercised by the parallel builds only; "
+    "coq/Hist/Hist.v tables: 'classification' (one class + probe + justification per regenerated write, 19 entries covering the 37 "
+    "writes), 'ctor_scoped' (md, rules, _inventories: attributes of the parser object, not of one render), 'env_class' (attribute of "
+    "the Sphinx environment -> complete-before-reading / current document / own slot / identity test / user-driven / filled-while-reading)",
+    "the syntactic notion of 'shared state' of gen/c15_globalwrites.py: module-level names, names declared global, locals holding class "
+    "objects (*_class, *_cls, cls, klass), access paths through config / env / app / settings / registry objects, setattr() on non-fresh "
+    "objects, mutating method calls on those, functools caches, registry calls",
+    "the abstraction of a parse to its classified writes plus an output that reads cells (coq/Hist/Hist.v Section Model)",
+    "state kept by docutils, Sphinx, pygments, markdown-it and Jinja themselves (role / directive registries, language caches, lexer "
+    "caches) is not in the table: it is exercised by the history search only (the three open findings are of this kind)",
+    "fork / pickle / merge behaviour of Sphinx read workers and of incremental builds is runtime behaviour: exercised by the builds only; "
     "C15_merge_commutes is about the association-list model of env.metadata",
 ]
 ORACLES = {
-    "O_parse_model": "a parse performs the writes of Gen/GlobalWrites (and no other write to MyST-owned shared state) and its "
-                     "output is a function of its input and of what reads of those cells observe: probe histories + random histories",
-    "O_sphinx_merge": "BuildEnvironment.merge_info_from copies env.metadata[docname] for the worker's docnames: serial vs parallel builds",
-    "O_third_party_state": "docutils / Sphinx / pygments global registries do not change what a later MyST parse produces: history search",
+    "O_parse_model": "a parse performs the writes of Gen/GlobalWrites (and no other write to MyST-owned shared state) and its output is a "
+                     "function of its input and of what reads of those cells observe: probe histories, extracted-model cell traces, random / "
+                     "delta / object-reuse / shared-settings histories",
+    "O_sphinx_merge": "BuildEnvironment.merge_info_from copies env.metadata[docname] for the worker's docnames; domain data written through "
+                      "note_* APIs are merged from the workers: serial vs parallel vs shuffled builds",
+    "O_env_complete": "found_docs, config, srcdir, myst_config, project paths and intersphinx inventories are complete before the first "
+                      "document is read: serial vs parallel builds with read-time links to earlier and later documents",
+    "O_third_party_state": "docutils / Sphinx / pygments global registries do not change what a later MyST parse produces: history search "
+                           "(3 open findings where they do)",
 }
 ASSUMPTIONS = ["a process forked from a forkserver that has only imported the libraries is equivalent to a fresh interpreter",
                "PYTHONHASHSEED is fixed (set iteration order is part of neither the document nor the configuration)"]
-LEVEL_TEXT = ("Proof (Coq): every regenerated write to shared state has a hand classification (C15_writes_classified, a new "
-              "global write breaks it); in the abstract process model (state = cells, parse = the classified writes + an output "
-              "that reads cells) the output of a parse after ANY history equals its output in the fresh state whenever no written "
-              "cell is classified Leak - a real induction over histories with the invariant 'caches are valid, constant / "
-              "per-document cells are rewritten before use, restored cells are unchanged' (C15_history_independent), and the "
-              "table has no Leak (C15_table_has_no_leak); every self.<attr> the renderer reads is re-initialised per render "
-              "(C15_render_state_reset); merging worker environments with disjoint docnames gives the same map in any order "
-              "(C15_merge_commutes, over permutations). Tie: regenerated tables + probe/random histories and serial-vs-parallel "
-              "Sphinx builds on the implementation.")
-LEVEL_NOTE = ("Partial: the classification and its justifications are trusted; the model abstracts a parse to its classified "
-              "writes; state owned by docutils/Sphinx/pygments and the fork/pickle semantics of Sphinx workers are covered by "
-              "the search only.")
+LEVEL_TEXT = ("Proof (Coq, 12 theorems, all closed). Over tables REGENERATED from the source on every run: C15_writes_classified (each of the "
+              "n_writes = 37 writes to shared state has a class; a new global write breaks it), C15_table_has_no_leak (no written cell is "
+              "classified Leak; C15_open_leaks_are_leaks guards the empty open list), C15_render_state_reset and, on the assignment lists "
+              "translated as code, C15_render_state_reset_src (for EVERY prior instance state each attribute a renderer method reads before "
+              "writing is fresh after setup_render alone, except three justified constructor-scoped attributes that __init__ assigns), "
+              "C15_merge_copies_src (merge_file_level never writes or returns the object passed as config), C15_read_phase_env_complete (no "
+              "read-phase use of the Sphinx environment reads a table that is filled while documents are read), "
+              "C15_no_nondeterminism_source. Over the abstract process model, with no bound: C15_history_independent - a real induction over "
+              "histories: if no written cell is a Leak then for every history h and input i the output after h equals the fresh output "
+              "(constant and per-document cells are rewritten before use, memo tables only hold what a miss computes - "
+              "C15_cache_hit_equals_miss -, restored cells are unchanged); C15_history_independent_with_leak_refuted shows the premise is "
+              "needed (what Include.option_spec was before 306a0d5); C15_merge_commutes - merging worker metadata with disjoint docnames "
+              "gives the same map in any order (over permutations). Tie: regenerated tables and code, probe histories, the extracted model "
+              "run against dumps of the real cells, and the search over histories and Sphinx builds.")
+LEVEL_NOTE = ("Partial by nature: the model abstracts a parse to its classified writes; state owned by docutils / Sphinx / pygments / Jinja "
+              "and the fork / pickle / merge semantics of Sphinx workers and incremental builds are exercised by the search only (quick 2.3k, "
+              "thorough 26k observations; serial / -j4 / shuffled / repeated / incremental builds). Trusted: the classification, ctor_scoped "
+              "and env_class tables with their justifications, the translator's notion of shared state. 3 open findings, all third-party "
+              "state, reproduced on every run: docutils' process-wide role registry ({role} directive) leaks across documents, its Sphinx "
+              "form (-j1 vs -j4 differ), docutils' 'Language not supported' warning only on first lookup. Repaired in /repo by this check's "
+              "builder: 306a0d5 (Include.option_spec mutation), ca8c8e6 (default role leak), 7f4e1af (uuid4 equation labels); by the C11 "
+              "builder after being found here: 0676245 (per-document footnote options written onto a shared settings object).")
 COQCHK = True
 
 
